@@ -15,7 +15,7 @@ pub fn main() -> i32 {
     let mut checks = 0u64;
 
     // ---- 1. dnspython vectors -----------------------------------------------------------------
-    let dir = "/repo/simple-dns/samples/zonefile";
+    let dir = &format!("{}/simple-dns/samples/zonefile", std::env::var("VERIF_REPO").unwrap_or_else(|_| "/repo".into()));
     let mut files = 0;
     if let Ok(rd) = std::fs::read_dir(dir) {
         let mut paths: Vec<_> = rd.flatten().map(|e| e.path()).collect();
